@@ -510,7 +510,7 @@ def write_replay(pid, fam_result, m, seed):
     os.makedirs(REPLAYS, exist_ok=True)
     if fam_result.get('is_trace') and m.get('reset'):
         seed = m['reset']['seed']
-        fam_result = dict(fam_result, scale=m['reset']['scale'], walker='l1-walk' if fam_result.get('mod') == 'l1' else fam_result['walker'], meta=dict(driver=True))
+        fam_result = dict(fam_result, scale=m['reset']['scale'], walker={'l1': 'l1-walk', 'l2': 'l2-walk', 'val': 'val-walk'}.get(fam_result.get('mod'), fam_result['walker']), meta=dict(driver=True))
     body = dict(property=pid, family=fam_result['name'], walker=fam_result['walker'], seed=seed, scale=fam_result['scale'],
                 meta=fam_result['meta'], path=m.get('path') or [], event=m.get('event'), expect=dict(
                     spec_ok=m.get('spec_ok'), failed_guards=m.get('failed_guards'), fields=m.get('fields'), detail=m.get('detail')),
